@@ -9,6 +9,7 @@
 (* interleaves                                                             *)
 (*    Add(p, ls, r)       add_file for a path not yet present              *)
 (*    Replace(p, ls, r)   add_file for a path that is present              *)
+(*    Aggregate(r)        Codebase.aggregate(), at most once                *)
 (* each optionally followed by a read (r) of everything the report derives *)
 (* from the measurements; the history ends with a read.  Reading is not    *)
 (* writing: what a read returns is a function of the entries held at that  *)
@@ -56,7 +57,17 @@ Step(p, ls, r) ==
      ELSE held' = Append(held, <<p, ls>>) /\ UNCHANGED pure
   /\ hist' = Append(hist, <<p, ls, r>>)
   /\ exp' = IF r THEN Append(exp, Observation(held')) ELSE exp
-Next == \E p \in 1..NPaths, ls \in MeasLists, r \in BOOLEAN : Step(p, ls, r)
+(* Codebase.aggregate() (the folder profiles are summed up - what a scan does when it has walked the tree) somewhere in  *)
+(* the history, at most once: files may still be added afterwards.  It is recorded as path 0; nothing a read returns   *)
+(* depends on it.                                                                                                   *)
+Aggregate(r) ==
+  /\ Len(hist) < MaxOps /\ held # <<>>
+  /\ \A i \in 1..Len(hist) : hist[i][1] # 0
+  /\ hist' = Append(hist, <<0, <<>>, r>>)
+  /\ exp' = IF r THEN Append(exp, Observation(held)) ELSE exp
+  /\ UNCHANGED <<held, pure>>
+Next == \/ \E p \in 1..NPaths, ls \in MeasLists, r \in BOOLEAN : Step(p, ls, r)
+        \/ \E r \in BOOLEAN : Aggregate(r)
 Spec == Init /\ [][Next]_vars
 
 (* sanity of the reference *)
